@@ -14,6 +14,13 @@ requests (one token per argument; `-` is the empty field list)
   bandw ng jup jband   columns written (row = 0..ng-1)          -> [..]
   implicit HEXNAME     first letter implies integer             -> T|F
   afloat BITS64        " {:+.16E}".format of the double           -> hex | reject (inf/nan)
+  schema FMT b|a ENV FIELDS   the whole file the format's schema (Model/Cccc.lean `Schema.byName`) writes for the
+                       container values FIELDS (all records, in call order) and the values that are not in the
+                       file ENV := -|name=INT(;name=INT)*           -> hex;values-left-over | reject | short
+  revg ng g            container group index of file position g in an adjoint file      -> INT
+  nrec chiFlag [ords]  records of one ISOTXS nuclide                                     -> NAT
+  offs [counts]        ISOTXS record offsets                                            -> [..]
+  adom i INT | adom d BITS64   is the value inside the ASCII field's accepted domain (asciiInt.ok / asciiReal.ok) -> T|F
 FIELDS := field(,field)*   field := iINT | lINT | fNAT(32-bit pattern) | dNAT(64-bit pattern) | sLEN:HEX
           in ASCII records f/d carry the 64-bit pattern of the Python float that is formatted
 KINDS  := kind(,kind)*     kind := i | l | f | d | sLEN
@@ -76,8 +83,7 @@ def bodyA : List Field → Option (RW Unit)
   | .d n :: r => if (doubleParts n).isSome then (bodyA r).map (fun p => .prim (asciiFloat 8) n (fun _ => p)) else none
   | .s len b :: r => (bodyA r).map (fun p => .prim (asciiStr len) b (fun _ => p))
 
-inductive Val where
-  | i (v : Int) | n (v : Nat) | s (b : Bytes)
+-- `Val` (an integer, a real's bit pattern, or text) is the model's `ArmiVerif.Cccc.Val`
 
 def showVal : Val → String
   | .i v => toString v
@@ -134,7 +140,113 @@ def encode (fr : Frame) (body : Option (RW Unit)) (countOk : Int → Bool) : Str
   | some p =>
     if countOk (p.write.2.1 : Nat) then toHex ((File.record p (fun _ => File.done ())).write fr).1 else "reject"
 
+def fieldVal : Field → Val
+  | .i v => .i v | .l v => .i v | .f n => .n n | .d n => .n n | .s _ b => .s b
+
+/-- the values a routine of the given record class accepts (struct.error / AttributeError otherwise) -/
+def fieldOk (ascii : Bool) : Field → Bool
+  | .i v => ascii || (-2147483648 ≤ v ∧ v < 2147483648)
+  | .l v => !ascii && (-9223372036854775808 ≤ v ∧ v < 9223372036854775808)
+  | .f n => if ascii then (doubleParts n).isSome else n < 4294967296
+  | .d n => if ascii then (doubleParts n).isSome else n < 18446744073709551616
+  | .s _ _ => true
+
+def parseEnv (t : String) : Option Env :=
+  if t = "-" then some [] else
+  (t.splitOn ";").mapM (fun kv => match kv.splitOn "=" with
+    | [k, x] => x.toInt?.map (fun n => (k, n))
+    | _ => none)
+
+/-! guard for `schema`: walk the schema over the container's values WITHOUT building the program - one value per
+field, integers bound exactly as `fldRW` binds them, file-level loop iterations scoped as in `loopF`. `none` when the
+values run out or the walk exceeds its fuel (a count taken from a misplaced value would otherwise make the model write
+billions of default fields). Only when the walk succeeds is the model's program built and run. -/
+structure DSt where
+  env : Env
+  inp : List Val
+  fuel : Nat
+
+def dryFld (t : Ty) (key : Option String) (st : DSt) : Option DSt :=
+  match st.inp, st.fuel with
+  | [], _ => none
+  | _, 0 => none
+  | x :: rest, f + 1 =>
+    let env := match t with
+      | .i => bindInt st.env key x.int
+      | .l => bindInt st.env key x.int
+      | _ => st.env
+    some { env := env, inp := rest, fuel := f }
+
+def dryRep (t : Ty) (key : Option String) : Nat → Nat → DSt → Option DSt
+  | 0, _, st => some st
+  | n + 1, i, st => (dryFld t (key.map (fun x => key1 x i)) st).bind (dryRep t key n (i + 1))
+
+def dryLoop (body : DSt → Option DSt) (x : String) : Nat → Nat → DSt → Option DSt
+  | 0, _, st => some st
+  | n + 1, i, st =>
+    match st.fuel with
+    | 0 => none
+    | f + 1 => (body { st with env := bindLoop st.env x i, fuel := f }).bind (dryLoop body x n (i + 1))
+
+def ArmiVerif.Cccc.Rec.dry : Rec → DSt → Option DSt
+  | .nil, st => some st
+  | .fld t b rest, st => (dryFld t (b.map (fun b => b.key st.env)) st).bind rest.dry
+  | .rep n t b rest, st =>
+    let k := (n.eval st.env).toNat
+    if k > st.inp.length then none else (dryRep t b k 0 st).bind rest.dry
+  | .strv _ rest, st => (dryFld (.s 0) none st).bind rest.dry
+  | .opt c body rest, st => if c.eval st.env != 0 then (body.dry st).bind rest.dry else rest.dry st
+  | .loop n x body rest, st => (dryLoop body.dry x (n.eval st.env).toNat 0 st).bind rest.dry
+
+def dryLoopF (body : DSt → Option DSt) (x : String) : Nat → Nat → DSt → Option DSt
+  | 0, _, st => some st
+  | n + 1, i, st =>
+    match st.fuel with
+    | 0 => none
+    | f + 1 =>
+      (body { st with env := bindLoop st.env x i, fuel := f }).bind
+        (fun st' => dryLoopF body x n (i + 1) { st' with env := st.env })
+
+def ArmiVerif.Cccc.FileS.dry : FileS → DSt → Option DSt
+  | .nil, st => some st
+  | .one r rest, st => (r.dry st).bind rest.dry
+  | .opt c body rest, st => if c.eval st.env != 0 then (body.dry st).bind rest.dry else rest.dry st
+  | .loop n x body rest, st => (dryLoopF body.dry x (n.eval st.env).toNat 0 st).bind rest.dry
+
+def schemaAnswer (fmt mode env fs : String) : String :=
+  match Schema.byName fmt, parseEnv env, parseFields fs with
+  | some s, some env0, some l =>
+    let ascii := mode == "a"
+    if mode != "a" && mode != "b" then "bad-op"
+    else if !(l.all (fieldOk ascii)) || (ascii && s.usesLong) then "reject"
+    else
+      let vals := l.map fieldVal
+      match s.dry { env := env0, inp := vals, fuel := 8 * vals.length + 20000 } with
+      | none => "short"   -- the schema asks for more values than the container's trace holds
+      | some _ =>
+        let cs := if ascii then asciiCodecs (fun _ => none) else binaryCodecs
+        let fr := if ascii then asciiFrame else binaryFrame
+        let w := (schemaFile cs s env0 vals).write fr
+        toHex w.1 ++ ";" ++ toString w.2.2.2
+  | _, _, _ => "bad-op"
+
 def answer : List String → String
+  | ["schema", fmt, mode, env, fs] => schemaAnswer fmt mode env fs
+  | ["revg", ng, g] => match parseInt? ng, parseInt? g with
+      | some ng, some g => toString (revGroup ng g)
+      | _, _ => "bad-op"
+  | ["nrec", c, os] => match parseInt? c, parseIntList? os with
+      | some c, some os => toString (isotxsNumRecords c os)
+      | _, _ => "bad-op"
+  | ["offs", cs] => match parseNatList? cs with
+      | some cs => showList toString (recordOffsets cs)
+      | none => "bad-op"
+  | ["adom", "i", x] => match parseInt? x with
+      | some x => showBool (decide (-999999999 ≤ x ∧ x ≤ 999999999))
+      | none => "bad-op"
+  | ["adom", "d", n] => match parseNat? n with
+      | some n => showBool ((doubleParts n).isSome && (asciiRealField n).length == 24)
+      | none => "bad-op"
   | ["recb", fs] => match parseFields fs with
       | some l => encode binaryFrame (bodyB l) (fun n => n < 2147483648)
       | none => "bad-op"
